@@ -103,7 +103,11 @@ def check_real_interrupt(scenario, fault, stats=None):
     r = run_real_interrupt(scenario, fault)
     case = {'scenario': scenario, 'schedule': {'kind': 'sequential'}, 'fault': fault, 'real_process': True}
     if r.timed_out or not r.interrupt_sent:
-        raise Inconclusive(f'real operator-interrupt run did not get to its interrupt (timed_out={r.timed_out}, client errors {list(r.client_exc.items())[:2]})')
+        # wall-clock safety net / the scripted point was never reached (a loaded machine, a port taken by somebody
+        # else): says nothing about the property - the case is skipped and counted, never reported
+        if stats is not None:
+            stats.excluded['real interrupt run stopped by the wall-clock safety net or never reached its point (skipped, not judged)'] += 1
+        return
     text = r.output_text
     try:
         logs = json.loads(text)['logs']
